@@ -10,6 +10,7 @@ CONSTANTS
   TypeOf <- MCTypeOf
   RootTypes <- MCRoot
   Edits <- MCEditsDev
+  EncToks <- MCEncAll
   HelperToks <- MCHelpers
   ImportToks <- MCImportsDev
   CmtToks <- MCCmt
